@@ -156,10 +156,14 @@ Inductive lookup_ans := LFail | LProducers (ps : list bytes).
                     configured address) *)
 Inductive nsqd_ans := NFail | NStats (has_topic : bool) (info : option (bytes * bytes)).
 
+(* the node named in a tombstone request: /info fails, /info answers (broadcast_address b,
+   http_port p) and /stats fails, or both answer *)
+Inductive node_ans := NodeInfoFail | NodeStatsFail | NodeOk (b p : bytes).
+
 Record world := mkWorld {
   w_lookupds : list (bytes * lookup_ans);   (* configured nsqlookupds, in order, with their answer *)
   w_nsqds : list (bytes * nsqd_ans);        (* configured nsqds (direct mode) *)
-  w_node : nsqd_ans;                        (* tombstone: /info + /stats of the node itself *)
+  w_node : node_ans;                        (* tombstone: /info + /stats of the node itself *)
   w_post_fail : list bytes                  (* addresses that answer POSTs with an error *)
 }.
 
@@ -238,9 +242,9 @@ Definition get_topic_producers (w : world) (topic : bytes) : lookup_res :=
    a failure is a hard error; the producer's address comes from /info as is *)
 Definition get_node_producer (w : world) (node : bytes) : lookup_res :=
   match w_node w with
-  | NFail => mkLR [mkCall UGet node "info" [] [] []] None 1
-  | NStats _ None => mkLR [mkCall UGet node "info" [] [] []; mkCall UGet node "stats" [] [] []] None 1
-  | NStats _ (Some (b, p)) =>
+  | NodeInfoFail => mkLR [mkCall UGet node "info" [] [] []] None 1
+  | NodeStatsFail => mkLR [mkCall UGet node "info" [] [] []; mkCall UGet node "stats" [] [] []] None 1
+  | NodeOk b p =>
       mkLR [mkCall UGet node "info" [] [] []; mkCall UGet node "stats" [] [] []]
            (Some [join_host_port b p]) 0
   end.
